@@ -37,6 +37,12 @@ Judge(seq, e) ==
       r == RFromFx(e.r)
   IN CASE e.q = "delta"  -> IF RClose(r, Delta(x)) THEN OK ELSE "delta-value"
        [] e.q = "dmax"   -> IF RClose(r, DeltaMaxOf(x)) \/ RClose(r, DeltaMaxAlt(NPos(x), NNeg(x), NNeut(x))) THEN OK ELSE "deltamax-value"
+       [] e.q = "dmaxperm" ->   \* reply (value, permutant): C03
+            LET pm == e.perm  y == ChargePattern(pm) IN
+            IF ~(RClose(r, DeltaMaxOf(x)) \/ RClose(r, DeltaMaxAlt(NPos(x), NNeg(x), NNeut(x)))) THEN "deltamax-value"
+            ELSE IF ~(Len(pm) = Len(seq) /\ \A a \in Residues : Cardinality({i \in 1..Len(pm) : pm[i] = a}) = Cardinality({i \in 1..Len(seq) : seq[i] = a}))
+                 THEN "permutant-not-a-rearrangement"
+            ELSE IF ~RClose(r, Delta(y)) THEN "permutant-delta-differs" ELSE OK
        [] e.q = "kappa"  -> KappaJudge(r, x)
        [] e.q = "scd"    -> IF \A d \in 1..(Len(x)-1) : SqrtOK(d)
                             THEN (IF RClose(r, SCD(x)) THEN OK ELSE "scd-value") ELSE "machinery:sqrt-table"
